@@ -125,6 +125,9 @@ def parse_output(out: str) -> TlcResult:
                 block.append(l2)
                 j += 1
             vio.states = _parse_states(block)
+            if not vio.states and "violated by the initial state" in ln:
+                # TLC prints the offending initial state without a `State 1:` header
+                vio.states = _parse_states(["State 1: <Initial predicate>", *block])
             res.violations.append(vio)
             res.ok = False
             i = j
